@@ -491,7 +491,69 @@ async def optional_injection_is_the_optional_lookup():
     return ok, f"{out}"
 
 
-SCENARIOS = {f.__name__: f for f in (optional_injection_is_the_optional_lookup, leaked_child_survives_gc, closed_after_teardown_raised_baseexception,
+async def lookup_paths_agree_inside_a_component():
+    """C02: all lookup paths agree on the visible set -- also the path through a component's view of the context,
+    and also for a resource that is falsy (0, an empty container): what get_resource_nowait / get_resources /
+    an injected parameter find, the component's `await get_resource()` returns at once"""
+    from asphalt.core import Component, get_resource, get_resource_nowait, start_component
+
+    class Registry(list):
+        pass
+    seen = {}
+
+    class Comp(Component):
+        async def start(self):
+            ctx = current_context()
+            seen["nowait"] = get_resource_nowait(Registry, optional=True)
+            seen["all"] = list(ctx.get_resources(Registry).values())
+
+            @inject
+            async def injected(*, r: Registry = resource()):
+                return r
+            seen["injected"] = await injected()
+            with anyio.move_on_after(1) as scope:
+                seen["awaited"] = await get_resource(Registry)
+            seen["waited"] = scope.cancelled_caught
+            seen["int"] = await get_resource(int, optional=True)
+    reg = Registry()
+    async with Context() as ctx:
+        ctx.add_resource(reg)
+        ctx.add_resource(0)
+        try:
+            await start_component(Comp, {}, timeout=3)
+        except BaseException as e:  # noqa
+            seen["error"] = repr(e)[:120]
+    ok = seen.get("nowait") is reg and seen.get("all") == [reg] and seen.get("injected") is reg \
+        and seen.get("awaited") is reg and seen.get("waited") is False and seen.get("int") == 0 and "error" not in seen
+    return ok, f"{ {k: (v if k in ('waited', 'error', 'int') else type(v).__name__) for k, v in seen.items()} }"
+
+
+async def leaving_a_context_with_an_explicit_parent():
+    """C02 (and C12): a context entered with an explicitly given parent that is NOT the current context; after
+    it has been left, the current context is again the one it was before, so that what is added through the
+    module-level shortcuts lands there -- not in the explicit parent -- and lookups see that context's set"""
+    from asphalt.core import add_resource, get_resource_nowait
+    out = {}
+    async with Context() as root:
+        async with Context() as a:
+            a.add_resource(A("in-a"), "mine")
+            async with Context(root) as side:
+                out["inside"] = current_context() is side
+                out["side_sees_a"] = side.get_resource_nowait(A, "mine", optional=True) is not None
+            out["back"] = current_context() is a
+            add_resource(B("after"), "late")
+            out["late_in_a"] = a.get_resource_nowait(B, "late", optional=True) is not None
+            out["late_in_root"] = root.get_resource_nowait(B, "late", optional=True) is not None
+            out["lookup"] = get_resource_nowait(A, "mine", optional=True) is not None
+            async with Context() as child:
+                out["child_parent"] = child.parent is a
+    want = {"inside": True, "side_sees_a": False, "back": True, "late_in_a": True, "late_in_root": False,
+            "lookup": True, "child_parent": True}
+    return out == want, f"{out}"
+
+
+SCENARIOS = {f.__name__: f for f in (optional_injection_is_the_optional_lookup, lookup_paths_agree_inside_a_component,
+                                     leaving_a_context_with_an_explicit_parent, leaked_child_survives_gc, closed_after_teardown_raised_baseexception,
                                      owner_left_by_baseexception_waits_for_tasks,
                                      handler_sees_the_escaping_exception_once, failed_subscription_leaves_nothing,
                                      redispatched_event_is_stamped_again, tree_started_inside_a_component,
